@@ -5,7 +5,6 @@ import (
 	"fmt"
 	"os"
 	"path/filepath"
-	"runtime"
 	"sort"
 	"strings"
 	"time"
@@ -46,7 +45,7 @@ func main() {
 		st := NewSymtab()
 		obs := lemmaObligations()
 		cfg := &SolverCfg{QuickTimeout: 5 * time.Second, FullTimeout: 30 * time.Second, NoCache: true}
-		DischargeAll(obs, st, cfg, runtime.NumCPU())
+		DischargeAll(obs, st, cfg, workers())
 		for _, o := range obs {
 			fmt.Printf("%-7s %-6s %6.2fs %s\n", o.Result, o.Solver, o.TimeS, o.Name)
 		}
@@ -121,9 +120,25 @@ func cmdVerify(args []string) {
 		all := append(append([]*Obligation{}, obs...), covers...)
 		fmt.Printf("%s: generated %d obligations in %.1fs\n", fn, len(all), time.Since(t0).Seconds())
 		if os.Getenv("GOVC_NOSOLVE") != "" {
+			for _, o := range all {
+				if *dump != "" && strings.HasSuffix(o.Name, *dump) {
+					os.WriteFile("/var/tmp/vscratch/dump.smt2", []byte(o.Query(st)), 0o644)
+					fmt.Println("dumped", o.Name, "to /var/tmp/vscratch/dump.smt2")
+				}
+			}
 			continue
 		}
-		DischargeAll(all, st, cfg, runtime.NumCPU())
+		if only := os.Getenv("GOVC_ONLY"); only != "" {
+			// debugging aid: discharge only the obligations whose name contains the given text
+			var sel []*Obligation
+			for _, o := range all {
+				if strings.Contains(o.Name, only) {
+					sel = append(sel, o)
+				}
+			}
+			all = sel
+		}
+		DischargeAll(all, st, cfg, workers())
 		nok := 0
 		for _, o := range all {
 			ok := o.Result == "unsat"
